@@ -1,13 +1,15 @@
 """copy a seeding agent's mutant (from its scratch worktree) into seeded/<prop>-m<k>/"""
 import json, os, shutil, sys
 prop = sys.argv[1]
-wt = f'/tmp/seed_{prop}'
+rnd = int(sys.argv[2]) if len(sys.argv) > 2 else 1
+wt = f'/tmp/seed_{prop}' if rnd == 1 else f'/tmp/seed{rnd}_{prop}'
+off = 2 * (rnd - 1)
 V = os.path.dirname(os.path.dirname(os.path.abspath(__file__)))
 for k in (1, 2, 3):
     diff = os.path.join(wt, f'mutant_{k}.diff')
     if not os.path.exists(diff):
         continue
-    d = os.path.join(V, 'seeded', f'{prop}-m{k}')
+    d = os.path.join(V, 'seeded', f'{prop}-m{k + off}')
     os.makedirs(d, exist_ok=True)
     shutil.copy(diff, os.path.join(d, 'patch.diff'))
     demo = os.path.join(wt, f'demo_{prop}_{k}.py')
@@ -18,7 +20,7 @@ for k in (1, 2, 3):
     note = open(md).read() if os.path.exists(md) else ''
     if note:
         open(os.path.join(d, 'NOTES.md'), 'w').write(note)
-    meta = {'property': prop, 'id': f'{prop}-m{k}', 'demo': 'demo.py', 'patch': 'patch.diff',
+    meta = {'property': prop, 'id': f'{prop}-m{k + off}', 'round': rnd, 'demo': 'demo.py', 'patch': 'patch.diff',
             'origin': 'independent sub-agent given only the property text and a scratch worktree',
             'needs_to_manifest': note.split('\n')[0][:200] if note else '', 'what_i_ran': 'tools/seedtest.py (see result.json)'}
     json.dump(meta, open(os.path.join(d, 'meta.json'), 'w'), indent=1)
